@@ -1277,3 +1277,76 @@ def check_step_keywords_all_languages(chk, ix):
     if n_lang < 40:
         raise AnalysisError("only %d languages found in behave.i18n.languages" % n_lang)
     chk.require_instances("P14", 500)
+
+
+WHAT["P15"] = ("a '# language: xx' header selects the keyword table AND is what the parser (and the feature) reports as its language - "
+               "nested parsing (execute_steps, parse_steps of that parser) depends on it; an unknown language is a ParserError")
+
+
+def check_language_header(chk, ix):
+    """P15: Parser.action evaluated on language comment lines, on a Parser built by its own constructor."""
+    chk.rule("P15", WHAT["P15"])
+    pc = ix.cls("behave.parser:Parser")
+    f = pc.lookup("action")
+    if f is None:
+        raise AnalysisError("anchor missing: Parser.action")
+    mod = ix.module("behave.i18n")
+    try:
+        table = ast.literal_eval(mod.consts.get("languages"))
+    except Exception as e:      # noqa
+        raise AnalysisError("behave.i18n.languages is not a literal table: %s" % e)
+    from .abscall import construct as _construct
+    from .values import ClassVal
+    for line, want in (("# language: de", "de"), ("#language: fr", "fr"), ("  # LANGUAGE: en-pirate  ", "en-pirate"), ("# language: xx-none", ParserErrorName),
+                       ("# just a comment", None)):
+        it = Interp(ix, name="Parser.action (language header)")
+        it.int_sat = 1000
+        it.list_cap = 100000
+        it.shared_consts = True
+        st = State()
+        st.frames = []
+        outs = _construct(it, st, ClassVal(pc), [], {}, None)
+        if len(outs) != 1 or outs[0][1] != "val":
+            raise AnalysisError("Parser() not evaluable: %r" % ([(k, v) for _, k, v in outs][:2],))
+        s1, _, me = outs[0]
+        r0 = it.call_function(s1, pc.lookup("reset"), [], {}, None, self_val=me)
+        if len(r0) != 1 or r0[0][1] != "val":
+            raise AnalysisError("Parser.reset not evaluable")
+        s2 = r0[0][0]
+        before = s2.obj(me).fields.get("language")
+        outs = it.call_function(s2, f, [line], {}, None, self_val=me)
+        chk.absorb(it)
+        chk.instance("P15")
+        if len(outs) != 1:
+            raise AnalysisError("Parser.action(%r): %d outcomes" % (line, len(outs)))
+        s3, k, v = outs[0]
+        if want is ParserErrorName:
+            if k == "raise" and v.clsname() == "ParserError":
+                chk.ok("P15", {"line": line, "result": "ParserError"}, nontrivial_key=line)
+            else:
+                chk.fail(Finding("P15", f.fullname, "%r -> %s" % (line, k), "the header %r names an unknown language; expected a ParserError, got %s %r"
+                                 % (line, k, v if k != "raise" else v.clsname()), file=f.file, line=f.lineno, stmt="def action"))
+            continue
+        if k != "val":
+            chk.fail(Finding("P15", f.fullname, "%r raises %s" % (line, v.clsname() if k == "raise" else k),
+                             "the line %r makes Parser.action raise %s" % (line, v.clsname() if k == "raise" else k), file=f.file, line=f.lineno, stmt="def action"))
+            continue
+        lang = s3.obj(me).fields.get("language")
+        kw = s3.obj(me).fields.get("keywords")
+        given = None
+        if isinstance(kw, Ref) and s3.obj(kw).kind == "dict" and s3.obj(kw).items is not None:
+            d = dict((a, b) for a, b in s3.obj(kw).items if isinstance(a, str))
+            g = d.get("given")
+            given = tuple(s3.obj(g).items) if isinstance(g, Ref) and s3.obj(g).items is not None else g
+        want_lang = want if want is not None else before
+        want_given = tuple(table[want]["given"]) if want is not None else tuple(table["en"]["given"])
+        if lang == want_lang and (given is None and want is None or tuple(given or ()) == want_given):
+            chk.ok("P15", {"line": line, "language": lang, "given keywords": list(want_given)[:3]}, nontrivial_key=line)
+        else:
+            chk.fail(Finding("P15", f.fullname, "%r -> language=%r given=%r" % (line, lang, given),
+                             "after the line %r the parser's language is %r and its 'given' keywords are %r; expected language %r with %r" % (
+                                 line, lang, given, want_lang, want_given), file=f.file, line=f.lineno, stmt="def action"))
+    chk.require_instances("P15", 5)
+
+
+ParserErrorName = "ParserError"
